@@ -73,6 +73,9 @@ func (e *c15Env) addArgs(which, n int) (uint32, int, int) {
 
 func (e *c15Env) index(which, n int) int {
 	nStd := len(e.init.UplinkChannels)
+	if which >= 1000 {
+		return which - 1000 // absolute index (directed histories)
+	}
 	if e.fixedIdx != nil {
 		return e.fixedIdx[which]
 	}
@@ -474,6 +477,32 @@ func runC15(r *engine.Run) {
 		}
 		// directed deep history (both tiers): seven CFList-capable additions, so the
 		// five-entry cap and a sixth/seventh custom channel are observed
+		if !env.init.SupportsExtraChannels {
+			// directed block histories (both tiers): every pattern of whole 16-channel
+			// blocks switched off by real Disable calls (a CFList with all-zero masks
+			// between non-zero ones), checked like every other state
+			first := len(env.ops)
+			n := len(env.init.UplinkChannels)
+			for i := 0; i < n; i++ {
+				env.ops = append(env.ops, c15Op{name: fmt.Sprintf("DisableAt(%d)", i), kind: "disable", which: 1000 + i})
+			}
+			blocks := (n + 15) / 16
+			r.PartDims("block-patterns/"+string(name), []string{fmt.Sprintf("16-channel blocks switched off: 2^%d", blocks)}, 1<<uint(blocks), func(c *engine.Case) {
+				b := newBand(cfg)
+				var path []int
+				for blk := 0; blk < blocks; blk++ {
+					if c.Index&(1<<uint(blk)) == 0 {
+						continue
+					}
+					for i := blk * 16; i < (blk+1)*16 && i < n; i++ {
+						env.do(b, first+i)
+						path = append(path, first+i)
+					}
+				}
+				env.checkState(c, b, path)
+				c.Outcome("deep/block-pattern")
+			})
+		}
 		if env.init.SupportsExtraChannels {
 			r.Part("deep/"+string(name), 1, func(c *engine.Case) {
 				b := newBand(cfg)
